@@ -241,7 +241,7 @@ func boundsRun(c *Ctx, entries []*ssa.Function, hooks *bounds.Hooks) int {
 			detail := fmt.Sprintf("%s not entailed: %s", kindNames[o.Kind], a.details[via])
 			if _, exact := r.AssumedKeys()[key]; exact {
 				r.AddRaw(rule, fname, cons, p.Position(o.Pos), -1, detail, "")
-				famUsed[familyOf(rule, via, t)]++
+				famUsed[familyOf(rule, via, t)] += familyWeight(rule, t)
 				continue
 			}
 			pend = append(pend, pendOb{rule, fname, cons, p.Position(o.Pos), detail, familyOf(rule, via, t)})
@@ -264,7 +264,11 @@ func boundsRun(c *Ctx, entries []*ssa.Function, hooks *bounds.Hooks) int {
 	}
 	for _, fam := range famOrder {
 		pos := byFam[fam]
-		within := famUsed[fam]+len(pos) <= budget[fam]
+		need := 0
+		for _, po := range pos {
+			need += familyWeight(po.rule, po.text)
+		}
+		within := famUsed[fam]+need <= budget[fam]
 		for _, po := range pos {
 			if within {
 				r.AddRaw(po.rule, po.fn, po.text, po.pos, int(core.Assumed), po.detail,
@@ -290,6 +294,13 @@ func familyOf(rule, via, text string) string {
 			sub = text[i+1 : i+j+1]
 		}
 	}
+	// "the access stays below the end of the buffer" is one family however the access is written: an index
+	// (one octet), a slice whose upper end must fit, or the length precondition of a fixed-width big-endian
+	// access (weighted by its width, see familyWeight): PutUint16(b[i:], x) and b[i], b[i+1] = ... are the same
+	// two octets
+	if rule == "BOUNDS.PRE" || rule == "BOUNDS.IDX" && sub == "{index<len}" || rule == "BOUNDS.SLC" && sub == "{high<=max}" {
+		return "BOUNDS.UB|" + via + "|"
+	}
 	if rule == "BOUNDS.CTR" {
 		// contracts are distinguished by their name (the text before the colon)
 		if i := strings.Index(text, ":"); i >= 0 {
@@ -297,6 +308,22 @@ func familyOf(rule, via, text string) string {
 		}
 	}
 	return rule + "|" + via + "|" + sub
+}
+
+// familyWeight: the number of octets whose access an undischarged upper-bound obligation stands for.
+func familyWeight(rule, text string) int {
+	if rule != "BOUNDS.PRE" {
+		return 1
+	}
+	switch {
+	case strings.Contains(text, "Uint16"):
+		return 2
+	case strings.Contains(text, "Uint32"):
+		return 4
+	case strings.Contains(text, "Uint64"):
+		return 8
+	}
+	return 1
 }
 
 // familyBudgets counts the assumed-table keys per family and keeps one reason per family.
@@ -315,7 +342,7 @@ func familyBudgets(assumed map[string]string) (map[string]int, map[string]string
 			}
 		}
 		fam := familyOf(parts[0], via, parts[2])
-		budget[fam]++
+		budget[fam] += familyWeight(parts[0], parts[2])
 		if _, ok := reason[fam]; !ok || why < reason[fam] {
 			reason[fam] = why
 		}
